@@ -7,6 +7,9 @@
      rw             | lock unlock rlock runlock
      wg             | add:<n> rem:<n> start end wait
      once           | call
+     sched <mutex|rw|ro> | <thread>:<op> ...   (controlled multi-thread script, Model/C25_Sched.v; `sched-early rw`
+                      = the refuted ReadLock variant): one token per step `<ok|err:c|blocked|busy>[+woken threads]`,
+                      then `end:<blocked threads>`; the alternatives (which blocked writer is served) are joined by " || "
    outcomes: ok  ok:<v>  err:<code>  panic:<code>  fatal:<code>  blocked  (ran / skip for once);
    evaluation of a sequence stops after blocked, panic or fatal (the caller is gone).
    Every call is executed by the extracted step functions of Model/C25_Sync.v. *)
@@ -47,6 +50,56 @@ let parse_cact (tok : string) : cact =
       CSelect (cs, dflt = "1", if choice = "d" then None else Some (nat_of_int (int_of_string choice)))
   | _ -> failwith ("bad chan op " ^ tok)
 
+(* ---- controlled scripts *)
+let show_threads (ts : int list) : string =
+  if ts = [] then "-" else String.concat "," (List.map string_of_int (List.sort compare ts))
+
+let show_sres (r : C25_Sched.sres) : string =
+  let imm =
+    match r.C25_Sched.sr_imm with
+    | C25_Sched.IOk -> "ok"
+    | C25_Sched.IErr c -> "err:" ^ zs c
+    | C25_Sched.IBlocked -> "blocked"
+    | C25_Sched.IBusy -> "busy"
+  in
+  match r.C25_Sched.sr_woken with [] -> imm | w -> imm ^ "+" ^ show_threads (List.map int_of_nat w)
+
+let uniq (l : string list) : string list =
+  List.fold_left (fun acc x -> if List.mem x acc then acc else acc @ [ x ]) [] l
+
+let sched_case (kind : string list) (steps : string list) : string =
+  let parse tok =
+    match String.split_on_char ':' tok with
+    | [ t; op ] -> (nat_of_int (int_of_string t), op)
+    | _ -> failwith ("bad step " ^ tok)
+  in
+  let steps = List.map parse steps in
+  let render toks blocked = String.concat " " (List.map show_sres toks @ [ "end:" ^ show_threads (List.map int_of_nat blocked) ]) in
+  let rw early =
+    let script =
+      List.map
+        (fun (t, op) ->
+          ( t,
+            match op with
+            | "lock" -> C25_Sched.SLock
+            | "unlock" -> C25_Sched.SUnlock
+            | "rlock" -> C25_Sched.SRLock
+            | "runlock" -> C25_Sched.SRUnlock
+            | _ -> failwith op ))
+        steps
+    in
+    String.concat " || "
+      (uniq (List.map (fun (toks, st) -> render toks (C25_Sched.sblocked st)) (C25_Sched.srun early script C25_Sched.sinit)))
+  in
+  match kind with
+  | [ "sched"; ("rw" | "ro") ] -> rw false
+  | [ "sched-early"; ("rw" | "ro") ] -> rw true
+  | [ "sched"; "mutex" ] ->
+      let script = List.map (fun (t, op) -> (t, match op with "lock" -> MOLock | "unlock" -> MOUnlock | _ -> failwith op)) steps in
+      String.concat " || "
+        (uniq (List.map (fun (toks, st) -> render toks st.C25_Sched.x_blk) (C25_Sched.xrun script C25_Sched.xinit)))
+  | _ -> failwith "bad sched kind"
+
 let run_seq (step : 'st -> string -> 'st * obs) (init : 'st) (ops : string list) : string =
   let st = ref init in
   let out = ref [] in
@@ -70,6 +123,7 @@ let case fx (input : string) : string =
     | _ -> failwith "bad input"
   in
   match head with
+  | ("sched" | "sched-early") :: _ -> sched_case head ops
   | [ "chan"; caps ] ->
       let capa = Array.of_list (List.map int_of_string (String.split_on_char ',' caps)) in
       let capf k = let i = int_of_nat k in nat_of_int (if i < Array.length capa then capa.(i) else 0) in
